@@ -145,7 +145,7 @@ def _worker(args):
         for k, v in stats.items():
             agg.c[k] += v
         for site, n in run.sched.sites.items():
-            agg.sites["%s:%d" % site] += n
+            agg.sites["%s:%s" % site] += n
         nops = 0
         for a in sc["actors"]:
             for op in a["ops"]:
